@@ -49,6 +49,8 @@ enum T {
     Vector(Vec<T>),
     /// index into the unquote table
     Unquote(usize, bool),
+    /// index into UNQ_EXPRS: an unquoted expression of a particular syntactic shape
+    UnquoteExpr(usize),
 }
 
 const IDENTS: &[&str] = &["foo", "bar", "baz", "x", "y1", "lambda", "define", "nil", "t", "quote", "list_tail", "CamelCase", "a", "b2", "set_car", "e1", "x_y_z"];
@@ -103,6 +105,23 @@ const UNQUOTES: &[(&str, &str)] = &[
     ("let sexp: i32 = 918;", "Value::from(918i32)"),
     ("let lexpr: i32 = 919;", "Value::from(919i32)"),
 ];
+/// (expression text after the comma, expected-value expression)
+const UNQ_EXPRS: &[(&str, &str)] = &[
+    ("(1, \"two\")", "Value::from((1, \"two\"))"),
+    ("(u2 + 1)", "Value::from(123457i32)"),
+    ("(u2 as i64)", "Value::from(123456i64)"),
+    ("((7, 8))", "Value::from((7, 8))"),
+    ("(if u10 { 1 } else { 2 })", "Value::from(1)"),
+    ("(u12.len() as u32)", "Value::from(8u32)"),
+    ("(vec![1u8, 2])", "Value::from(vec![1u8, 2])"),
+    ("(Value::from(5))", "Value::from(5)"),
+    ("(-u2)", "Value::from(-123456i32)"),
+    ("(&u12[1..3])", "Value::from(\"or\")"),
+    ("(u15.0)", "Value::from(1)"),
+    ("(u0, u11)", "Value::from((-7i8, 'λ'))"),
+    ("(u2 - 6)", "Value::from(123450i32)"),
+    ("(u10 && false)", "Value::from(false)"),
+];
 const UNQ_NAMES: &[&str] = &["u0", "u1", "u2", "u3", "u4", "u5", "u6", "u7", "u8_", "u9", "u10", "u11", "u12", "u13", "u14", "u15", "u16_", "u17", "u18", "u19", "u20", "u21", "u22", "u23", "tail", "head", "list", "items", "elements", "vec", "value", "v", "cons", "rest", "result", "tmp", "acc", "cdr", "car", "x", "e", "t", "sexp", "lexpr"];
 
 fn gen_atom(rng: &mut Rng) -> T {
@@ -138,6 +157,7 @@ fn gen_atom(rng: &mut Rng) -> T {
         16 => T::KwOcto((*rng.pick::<&str>(IDENTS)).to_string()),
         17 => T::KwColon((*rng.pick::<&str>(IDENTS)).to_string()),
         18 => T::KwStr((*rng.pick::<&str>(KEBABS)).to_string()),
+        _ if rng.chance(1, 4) => T::UnquoteExpr(rng.below(UNQ_EXPRS.len())),
         _ => {
             let k = rng.below(UNQUOTES.len());
             // u0..u12 are Copy; the others must be cloned, which needs the (expr) form
@@ -250,6 +270,7 @@ fn macro_src(t: &T, out: &mut String) {
                 write!(out, ",{}", UNQ_NAMES[*k]).unwrap()
             }
         }
+        T::UnquoteExpr(j) => write!(out, ",{}", UNQ_EXPRS[*j].0).unwrap(),
     }
 }
 
@@ -304,6 +325,7 @@ fn text_src(t: &T, out: &mut String) {
             out.push(')');
         }
         T::Unquote(k, _) => write!(out, "UNQUOTE-PLACEHOLDER-{}-", k).unwrap(),
+        T::UnquoteExpr(j) => write!(out, "UNQUOTE-PLACEHOLDER-{}-", UNQUOTES.len() + j).unwrap(),
     }
 }
 
@@ -378,7 +400,7 @@ fn atom_kinds(t: &T, acc: &mut Vec<&'static str>) {
             atom_kinds(t, acc);
             match **t {
                 T::List(_) | T::Dotted(_, _) => "dotted-with-list-tail",
-                T::Unquote(_, _) => "dotted-with-unquote-tail",
+                T::Unquote(_, _) | T::UnquoteExpr(_) => "dotted-with-unquote-tail",
                 _ => "dotted",
             }
         }
@@ -386,7 +408,7 @@ fn atom_kinds(t: &T, acc: &mut Vec<&'static str>) {
             xs.iter().for_each(|x| atom_kinds(x, acc));
             "vector"
         }
-        T::Unquote(_, _) => "unquote",
+        T::Unquote(_, _) | T::UnquoteExpr(_) => "unquote",
     };
     acc.push(k);
 }
@@ -431,6 +453,9 @@ fn write_crate(dir: &str, invs: &[Inv], skip: &std::collections::HashSet<usize>)
     }
     src.push_str("fn main() {\n    let u: Vec<Value> = vec![\n");
     for (_, e) in UNQUOTES {
+        writeln!(src, "        {},", e).unwrap();
+    }
+    for (_, e) in UNQ_EXPRS {
         writeln!(src, "        {},", e).unwrap();
     }
     src.push_str("    ];\n    let mut ok = 0usize;\n");
@@ -493,6 +518,45 @@ fn run_all(rep: &mut Report, ctx_seed: u64, n: usize, thorough: bool) {
             let mut kinds = Vec::new();
             atom_kinds(&t, &mut kinds);
             invs.push(Inv { macro_src: m, text: x, hazards: Vec::new(), kinds });
+        }
+    }
+    // directed: every punctuation symbol between / before / after identifiers and numbers
+    // (tokens that Rust's lexer may have joined or split differently from an S-expression reader),
+    // and every unquote expression shape in element, tail and vector position
+    {
+        let mut directed: Vec<T> = Vec::new();
+        let (a, b) = (|| T::Sym("a".to_string()), || T::Sym("b2".to_string()));
+        for p in PUNCTS {
+            let pt = || T::Punct(p.to_string());
+            directed.push(T::List(vec![a(), pt(), b()]));
+            directed.push(T::List(vec![pt(), a()]));
+            directed.push(T::List(vec![a(), pt()]));
+            directed.push(T::Vector(vec![a(), pt(), b()]));
+            directed.push(T::List(vec![a(), pt(), T::Int(1)]));
+            directed.push(T::List(vec![T::Int(1), pt(), a()]));
+            directed.push(T::List(vec![T::Sym("list".to_string()), pt(), T::Sym("vector".to_string())]));
+        }
+        for j in 0..UNQ_EXPRS.len() {
+            directed.push(T::UnquoteExpr(j));
+            directed.push(T::List(vec![a(), T::UnquoteExpr(j), b()]));
+            directed.push(T::Dotted(vec![a()], Box::new(T::UnquoteExpr(j))));
+            directed.push(T::Vector(vec![T::UnquoteExpr(j), a()]));
+            directed.push(T::List(vec![T::List(vec![T::Sym("answer".to_string())]), T::Dotted(vec![T::Sym("k".to_string())], Box::new(T::UnquoteExpr(j)))]));
+        }
+        for t in directed {
+            let (mut m, mut x) = (String::new(), String::new());
+            macro_src(&t, &mut m);
+            text_src(&t, &mut x);
+            let mut hz = Vec::new();
+            hazards(&t, &mut hz);
+            hz.sort();
+            hz.dedup();
+            if hz.len() > 1 {
+                continue;
+            }
+            let mut kinds = Vec::new();
+            atom_kinds(&t, &mut kinds);
+            invs.push(Inv { macro_src: m, text: x, hazards: hz, kinds });
         }
     }
     let mut skip: std::collections::HashSet<usize> = Default::default();
